@@ -18,10 +18,17 @@ import (
 	"verif/harness/common"
 )
 
-type replayStats struct{ clients, events, reads, inodes int }
+type replayStats struct {
+	clients, events, reads, inodes int
+	truncated                      bool
+}
 
 // buildReplay: inode paths (index = inode number), the client part and the event part of the
 // model request.
+// maxReplayEvents bounds the history handed to the model: the extracted semantics works on
+// unary numbers and chains of function updates, its cost grows faster than linearly.
+const maxReplayEvents = 5000
+
 func buildReplay(evs []flockEv) (paths []string, clientToks, eventToks []string, st replayStats) {
 	type client struct {
 		ino, flags int
@@ -96,6 +103,30 @@ func buildReplay(evs []flockEv) (paths []string, clientToks, eventToks []string,
 		}
 		return pts[i].seq < pts[j].seq
 	})
+	if len(pts) > maxReplayEvents {
+		// a prefix in canonical order is itself a consistent history; clients and operations
+		// that begin later are dropped
+		pts = pts[:maxReplayEvents]
+		st.truncated = true
+		kept := map[int]int{} // ofd -> number of io events kept
+		seen := map[int]bool{}
+		for _, p := range pts {
+			seen[p.c] = true
+			if p.kind == "io" {
+				kept[p.c]++
+			}
+		}
+		var order2 []int
+		for _, ofd := range order {
+			if seen[ofd] {
+				order2 = append(order2, ofd)
+				if cl := clients[ofd]; len(cl.ops) > kept[ofd] {
+					cl.ops = cl.ops[:kept[ofd]]
+				}
+			}
+		}
+		order = order2
+	}
 	paths = make([]string, len(inoPath))
 	for i, p := range inoPath {
 		paths[i] = p
@@ -119,7 +150,7 @@ func buildReplay(evs []flockEv) (paths []string, clientToks, eventToks []string,
 }
 
 // replayThroughModel: returns stats and findings for one traced round.
-func replayThroughModel(m *common.Model, evs []flockEv, initial map[string]string, dir string) (replayStats, []histFinding) {
+func replayThroughModel(m *lfModel, evs []flockEv, initial map[string]string, dir string) (replayStats, []histFinding) {
 	paths, clientToks, eventToks, st := buildReplay(evs)
 	var inits []string
 	for _, p := range paths {
@@ -129,18 +160,28 @@ func replayThroughModel(m *common.Model, evs []flockEv, initial map[string]strin
 			inits = append(inits, "absent")
 		}
 	}
-	parts := []string{"replay", fmt.Sprint(len(paths))}
+	mode := "full"
+	if st.truncated {
+		mode = "prefix"
+	}
+	parts := []string{"replay", mode, fmt.Sprint(len(paths))}
 	parts = append(parts, inits...)
 	parts = append(parts, fmt.Sprint(st.clients))
 	parts = append(parts, clientToks...)
 	parts = append(parts, fmt.Sprint(st.events))
 	parts = append(parts, eventToks...)
-	ans := m.Ask1(strings.Join(parts, " "))
+	ans := m.AskT(strings.Join(parts, " "), modelHeavyDeadline)
+	if strings.HasPrefix(ans, "MODEL-TIMEOUT") {
+		return st, nil // recorded in the runner's Notes; not a finding
+	}
 	f := strings.Fields(ans)
 	var out []histFinding
 	switch {
 	case len(f) > 0 && f[0] == "ok":
 		for i, p := range paths {
+			if st.truncated {
+				break // the model stopped in the middle of the history
+			}
 			if i+1 >= len(f) {
 				break
 			}
